@@ -65,7 +65,7 @@ func (a *Activation) external(ins *ssa.Call, callee *ssa.Function, args []Val, s
 		s, v := args[0], args[1]
 		et := s.T.Underlying().(*types.Slice).Elem()
 		r := c.Fresh(iname, "Int")
-		at := func(i string) string { return x.loadElem(st, et, s.Arr, app("+", s.Off, i)).S }
+		at := func(i string) string { return x.loadElem(st, et, s.Arr, x.eidx(s.Off, i)).S }
 		k := c.boundVar("k")
 		c.Assume(and(app("<=", "(- 1)", r), app("<", r, s.Len)))
 		c.Assume(implies(app(">=", r, "0"), eq(at(r), v.S)))
@@ -76,7 +76,7 @@ func (a *Activation) external(ins *ssa.Call, callee *ssa.Function, args []Val, s
 		et := s.T.Underlying().(*types.Slice).Elem()
 		r := c.Fresh(iname, "Bool")
 		w := c.Fresh(iname+"_w", "Int")
-		at := func(i string) string { return x.loadElem(st, et, s.Arr, app("+", s.Off, i)).S }
+		at := func(i string) string { return x.loadElem(st, et, s.Arr, x.eidx(s.Off, i)).S }
 		k := c.boundVar("k")
 		c.Assume(implies(r, and(app("<=", "0", w), app("<", w, s.Len), eq(at(w), v.S))))
 		c.Assume(implies(not(r), fmt.Sprintf("(forall ((%s Int)) (=> (and (<= 0 %s) (< %s %s)) (not (= %s %s))))", k, k, k, s.Len, at(k), v.S)))
@@ -152,8 +152,8 @@ func (a *Activation) external(ins *ssa.Call, callee *ssa.Function, args []Val, s
 		if name == "slices.SortFunc" {
 			f := args[1]
 			i, j := c.boundVar("i"), c.boundVar("j")
-			ei := scalar(et, sel(row, app("+", s.Off, i)))
-			ej := scalar(et, sel(row, app("+", s.Off, j)))
+			ei := scalar(et, sel(row, x.eidx(s.Off, i)))
+			ej := scalar(et, sel(row, x.eidx(s.Off, j)))
 			cmp := x.applyFunc(f, []Val{ei, ej})
 			c.Assume(fmt.Sprintf("(forall ((%s Int) (%s Int)) (=> (and (<= 0 %s) (< %s %s) (< %s %s)) (<= %s 0)))", i, j, i, i, j, j, s.Len, cmp.S))
 			st.ncall = c.Fresh("ncall", "Int")
